@@ -9,7 +9,7 @@
    No proofs here. *)
 From Coq Require Import List NArith ZArith Bool.
 From Coq.Strings Require Import Byte.
-From EV Require Import Base.Bytes Base.Zn Base.FreeMod Model.Script Model.Ideal Model.Verify.
+From EV Require Import Base.Bytes Base.Zn Base.FreeMod Gen.Tables Model.Script Model.Ideal Model.Verify.
 Import ListNotations.
 Open Scope Z_scope.
 
@@ -40,12 +40,15 @@ Fixpoint surjection_targets (l : list sinput) (i : nat) : oc blind_err (list sdo
               OVal (t :: ts)
   end.
 
-(* Asset::blind *)
+(* Asset::blind. SURJECTIONPROOF_MAX_N_INPUTS (a const of src/blind.rs, regenerated into Gen/Tables.v on every run) is the
+   size limit of a surjection proof's domain in libsecp256k1-zkp: a larger domain is refused after the targets are collected
+   and before the proof is attempted. *)
 Definition asset_blind (a : casset) (asset_bf : Z) (spent : list sinput) : oc blind_err (casset * sproof) :=
   match a with
   | AExp asset =>
       let out_asset := AConf (asset_gen asset asset_bf) in
       let* inputs := surjection_targets spent 0 in
+      if (CT_SURJECTIONPROOF_MAX_N_INPUTS <? N.of_nat (length inputs))%N then OFail BCannotProveSurjection else
       match sp_new asset asset_bf inputs with
       | Some p => OVal (out_asset, p)
       | None => OFail BCannotProveSurjection
